@@ -44,6 +44,11 @@ interface i2 { use i1.{t, r}; f2: func(x: t) -> r; }
 interface i3 { use i2.{t, r}; f3: func(x: list<t>, y: r); }
 interface i4 { use i3.{t as tt, r as rr}; f4: func(x: tt, y: borrow<rr>); }
 world chain { import i4; export go: func(); }
+interface j0 { type t = u32; record q { a: t } }
+interface j1 { use j0.{t as u, q}; g1: func(x: u, y: q); }
+interface j2 { use j1.{u, q as qq}; g2: func(x: u, y: qq); }
+interface j3 { use j2.{u as w, qq}; g3: func(x: w, y: qq); }
+world chain2 { import j3; export go: func(); }
 world producer { export shapes; }
 world consumer { import shapes; export render; }
 world app { import render; import shapes; import log: func(msg: string, level: u8); export run: func() -> result<_, string>; export ping: func(a: u8, b: list<string>) -> option<u8>; }
@@ -129,7 +134,7 @@ fn main() {
     let shaped = vec![
         wat::parse_str(r#"(component (import "w" (component (import "i" (func (param "p" u8))) (export "e" (instance (export "g" (func (result string))))))) (import "mod" (core module (import "a" "b" (func)) (export "c" (func)))) (import "t" (type (sub resource))) (import "n" (instance (export "deep" (instance (export "h" (func (param "x" (list u8)) (param "y" bool))))))) (core module $m (func (export "f"))) (core instance $i (instantiate $m)) (func $f (canon lift (core func $i "f"))) (export "z-first" (func $f)) (export "a-second" (func $f)))"#).unwrap(),
     ];
-    let mut lib: Vec<(String, Vec<u8>)> = vec![("t:producer".into(), component("producer")), ("t:consumer".into(), component("consumer")), ("t:app".into(), component("app")), ("t:chain".into(), component("chain"))];
+    let mut lib: Vec<(String, Vec<u8>)> = vec![("t:producer".into(), component("producer")), ("t:consumer".into(), component("consumer")), ("t:app".into(), component("app")), ("t:chain".into(), component("chain")), ("t:chain2".into(), component("chain2"))];
     for (i, b) in shaped.iter().enumerate() { lib.push((format!("t:shaped{i}"), b.clone())); }
     let (mut items, mut wrappers) = (0u64, 0u64);
     let mut samples = vec![];
@@ -157,14 +162,20 @@ fn main() {
         for (n, k) in &world.imports { match wt.component_entity_type_of_import(n) { Some(e) => match compare(&types, *k, &wt, &e, &format!("{name} import `{n}`")) { Ok(c) => items += c, Err(d) => { println!("C08-BOUNDED VIOLATION: {d}"); std::process::exit(1); } }, None => { println!("C08-BOUNDED VIOLATION: {name}: decoded import `{n}` is unknown to the validator"); std::process::exit(1); } } }
         for (n, k) in &world.exports { match wt.component_entity_type_of_export(n) { Some(e) => match compare(&types, *k, &wt, &e, &format!("{name} export `{n}`")) { Ok(c) => items += c, Err(d) => { println!("C08-BOUNDED VIOLATION: {d}"); std::process::exit(1); } }, None => { println!("C08-BOUNDED VIOLATION: {name}: decoded export `{n}` is unknown to the validator"); std::process::exit(1); } } }
         // used-type provenance through a chain of `use`s: every used type of i1..i4 comes from the DEFINING interface i0
-        if name == "t:chain" {
-            for k in 1..=4 {
-                let iname = format!("lib:types/i{k}@1.0.0");
+        // (renames at the last hop in `chain`; at the first, a middle and the last hop in `chain2`)
+        let s3 = |a: &str, b: &str, c: &str| (a.to_string(), format!("lib:types/{b}@1.0.0"), c.to_string());
+        let chains: Vec<(&str, Vec<(&str, Vec<(String, String, String)>)>)> = vec![
+            ("t:chain", vec![("i1", vec![s3("t", "i0", "t"), s3("r", "i0", "r")]), ("i2", vec![s3("t", "i0", "t"), s3("r", "i0", "r")]), ("i3", vec![s3("t", "i0", "t"), s3("r", "i0", "r")]), ("i4", vec![s3("tt", "i0", "t"), s3("rr", "i0", "r")])]),
+            ("t:chain2", vec![("j1", vec![s3("u", "j0", "t"), s3("q", "j0", "q")]), ("j2", vec![s3("u", "j0", "t"), s3("qq", "j0", "q")]), ("j3", vec![s3("w", "j0", "t"), s3("qq", "j0", "q")])]),
+        ];
+        for (cname, ifaces) in &chains {
+            if name != cname { continue; }
+            for (short, want) in ifaces {
+                let iname = format!("lib:types/{short}@1.0.0");
                 let Some(ItemKind::Instance(i)) = world.imports.get(&iname).copied() else { println!("C08-BOUNDED VIOLATION: {name}: import `{iname}` is not decoded as an instance"); std::process::exit(1) };
                 let got: Vec<(String, String, String)> = types[i].uses.iter().map(|(n, u)| (n.clone(), types[u.interface].id.clone().unwrap_or_default(), u.name.clone().unwrap_or_else(|| n.clone()))).collect();
-                let want: Vec<(String, String, String)> = if k < 4 { vec![("t".into(), "lib:types/i0@1.0.0".into(), "t".into()), ("r".into(), "lib:types/i0@1.0.0".into(), "r".into())] } else { vec![("tt".into(), "lib:types/i0@1.0.0".into(), "t".into()), ("rr".into(), "lib:types/i0@1.0.0".into(), "r".into())] };
-                if got != want { println!("C08-BOUNDED VIOLATION: {name}: used types of `{iname}` decoded as {:?}, the component's `use` chain gives {:?}", got, want); std::process::exit(1); }
-                items += 2;
+                if &got != want { println!("C08-BOUNDED VIOLATION: {name}: used types of `{iname}` decoded as {:?}, the component's `use` chain gives {:?}", got, want); std::process::exit(1); }
+                items += want.len() as u64;
             }
         }
         if samples.len() < 2 { samples.push(format!("{name}: imports {:?} exports {:?}", imp, exp)); }
@@ -176,6 +187,7 @@ fn main() {
         ("package test:doc;\nlet s = new t:shaped0 { ... };\nexport s.z-first;\n", vec!["t:shaped0"]),
         // a `use` chain through five interfaces (used-type provenance must survive decoding for the re-encoding to work)
         ("package test:doc;\nlet c = new t:chain { ... };\nexport c.go;\n", vec!["t:chain"]),
+        ("package test:doc;\nlet c = new t:chain2 { ... };\nexport c.go;\n", vec!["t:chain2"]),
     ];
     for (di, (src, deps)) in docs.iter().enumerate() {
         let doc = Document::parse(src).unwrap();
